@@ -54,10 +54,10 @@ HALF_KEY = "halfset-single-valued"
 
 def plan(tier):
     if tier == "quick":
-        return dict(n_cases=204, shards=2, classes=CLASSES, timeout_s=600,
-                    min_evals={"export_df": 500, "star_export": 350, "import_df": 700, "angles_to_relion": 500,
-                               "angles_from_relion": 700, "shifts": 700, "roundtrip_mem": 190, "roundtrip_file": 190,
-                               "converters": 350, "import_indep": 190, "import_halfset_single": 20})
+        return dict(n_cases=306, shards=2, classes=CLASSES, timeout_s=600,
+                    min_evals={"export_df": 850, "star_export": 580, "import_df": 1150, "angles_to_relion": 850,
+                               "angles_from_relion": 1150, "shifts": 1100, "roundtrip_mem": 300, "roundtrip_file": 300,
+                               "converters": 580, "import_indep": 300, "import_halfset_single": 40})
     return dict(n_cases=4080, shards=16, classes=CLASSES, timeout_s=3000,
                 min_evals={"export_df": 10000, "star_export": 7000, "import_df": 14000, "angles_to_relion": 10000,
                            "angles_from_relion": 14000, "shifts": 14000, "roundtrip_mem": 3900, "roundtrip_file": 3900,
@@ -203,10 +203,10 @@ def _import_snapshot(A):
     return {"rel": rel, "version": v, "ps": _infer_pixel(getattr(s, "pixel_size", None), rel, optics, len(df))}
 
 
-def judge_import(ctx, monitor, df, rel, version, ps, tol_pos=O.TOL_POS_MEM, tol_rot=O.TOL_ROT_MEM, extra=None):
+def judge_import(ctx, monitor, df, rel, version, ps, tol_pos=O.TOL_POS_MEM, tol_rot=O.TOL_ROT_MEM, extra=None, single=False):
     w, info = O.check_import(df, rel, version, ps, tol_pos, tol_rot)
     ctx.check(monitor, w is None, dict(w or {}, version=version, **(extra or {})))
-    if info is not None and w is None:
+    if single and info is not None and w is None:
         ctx.check("import_halfset_single", info["ok"], dict(info["witness"] or {}, version=version, all_rows_rlnRandomSubset=info["single"],
                                                            particles=len(df), at=monitor, **(extra or {})), key=HALF_KEY)
 
@@ -215,7 +215,7 @@ def _import_post(ctx, A, old, result):
     if old["version"] not in VERSIONS:
         ctx.ood("import_df")
         return
-    judge_import(ctx, "import_df", A["self"].df, old["rel"], float(old["version"]), old["ps"])
+    judge_import(ctx, "import_df", A["self"].df, old["rel"], float(old["version"]), old["ps"], single=True)
 
 
 def _a2r_applicable(A):
@@ -344,7 +344,7 @@ def setup(ctx):
         ("RelionMotl.prepare_particles_data", RM.prepare_particles_data,
          {"tomo_numeric": 'relion_df[tomo_name] = self.df["tomo_id"].astype(int)', "tomo_format": "tomo_sequence, tomo_digits = find_longest_sequence",
           "subtomo_numeric": 'relion_df[subtomo_name] = self.df["subtomo_id"].values.astype(int)',
-          "subtomo_format": "subtomo_sequence, subtomo_digits = find_longest_sequence", "tomo_in_subtomo_name": "if subtomo_t_sequence is not None",
+          "subtomo_format": "subtomo_sequence, subtomo_digits = find_longest_sequence", "tomo_in_subtomo_name": ("relion_df[subtomo_name] = relion_df.apply(", 1),
           "pixel_column": 'relion_df["rlnPixelSize"] = pixel_size'}),
         ("RelionMotl.create_relion_df", f_create, {"original_entries": "relion_df = self.adapt_original_entries()",
                                                    "halfsets": '.eq(0).to_numpy(), "rlnRandomSubset"] = 2',
@@ -532,7 +532,7 @@ def _gen_relion(rng, cls, version, big):
     # loader
     discoverable = src in ("column", "optics") or version < 3.1
     loaders = ["RelionMotl(path)", "RelionMotl(path,version,pixel_size)", "relion2emmotl", "relion2stopgap", "RelionMotl(frame)"]
-    loader = loaders[int(rng.integers(0, 5))]
+    loader = loaders[int(rng.choice([0, 1, 2, 3, 4, 4]))]
     if not discoverable and loader in ("RelionMotl(path)", "relion2stopgap"):
         loader = "RelionMotl(path,version,pixel_size)"
     if no_tomo_col and loader == "RelionMotl(frame)" and version < 4.0:
@@ -619,6 +619,16 @@ def _write_sg(path, T):
     O.write_stopgap_star(path, cols)
 
 
+def _column_like_a_reader(toks):
+    """what reading the column from a STAR file gives: int / float when every token is one, else text"""
+    for conv in (int, float):
+        try:
+            return [conv(t) for t in toks]
+        except ValueError:
+            pass
+    return list(toks)
+
+
 def _maybe_num(tok):
     try:
         return float(tok)
@@ -700,9 +710,7 @@ def _run_independent(ctx, case):
         ok, m = ctx.call(L, cm.relion2stopgap, path)
         df = m.df if ok else None
     else:
-        frame = pd.DataFrame({lab: ([float(t) for t in toks] if lab in NUMERIC else
-                                    ([int(t) for t in toks] if all(O._as_number(t) is not None for t in toks) else list(toks)))
-                              for lab, toks in D["cols"]})
+        frame = pd.DataFrame({lab: ([float(t) for t in toks] if lab in NUMERIC else _column_like_a_reader(toks)) for lab, toks in D["cols"]})
         oframe = None
         if D["optics"]:
             oframe = pd.DataFrame({lab: [_maybe_num(t[0])] for lab, t in D["optics"]})
